@@ -724,6 +724,12 @@ func (p *Posix) createObjVersion(bucket, key string, size int64, acc auth.Accoun
 	}
 	defer sf.Close()
 
+	// the object may have been replaced since the caller looked at it:
+	// the copy is sized by the file that is copied
+	if fi, err := sf.Stat(); err == nil && fi.Mode().IsRegular() {
+		size = fi.Size()
+	}
+
 	var versionId string
 	data, err := p.meta.RetrieveAttribute(sf, bucket, key, versionIdKey)
 	if err != nil && !errors.Is(err, meta.ErrNoSuchKey) {
